@@ -26,6 +26,7 @@ unsigned in_pol_vip[NPOL], in_pol_vport[NPOL];       /* value */
 unsigned in_skip_n, in_skip_pid;                     /* skip_process_map: 0 or 1 entry */
 unsigned in_tgid[NT], in_tid[NT], in_uid[NT], in_gid[NT];
 unsigned in_ip[NT], in_port[NT], in_proto[NT], in_sport[NT], in_family[NT];
+static unsigned fin_seq[NT], fin_counter;      /* order in which attempts finished (st == 2) */
 unsigned in_cgroup[NT];                              /* 1: connect4 hook sees this attempt */
 unsigned in_sched_n, in_sched[NS];
 unsigned in_victim[NS];                              /* LRU victims, consumed in order */
@@ -143,8 +144,8 @@ int main(void)
         ASSUME(in_sport[t] <= 0xFFFF);
         ASSUME(in_family[t] <= 0xFFFF);                     /* sa_family_t is 16 bits */
         ASSUME(in_cgroup[t] <= 1);
-        for (int u = 0; u < NT; u++)
-            if (u != t) ASSUME(in_sport[t] != in_sport[u]);   /* live connections to the listener have distinct source ports */
+        /* source ports: see the kprobe step - a port may be reused by a LATER attempt once an earlier one has finished (its connection was
+         * closed, its record possibly never consumed by the agent); attempts that are in progress together have distinct ports */
         /* one process has one uid in this model: same tgid => same uid/gid */
         for (int u = 0; u < NT; u++)
             if (in_tgid[t] == in_tgid[u]) ASSUME(in_uid[t] == in_uid[u] && in_gid[t] == in_gid[u]);
@@ -198,9 +199,12 @@ int main(void)
             g_rip[t] = ctx.user_ip4; g_rport[t] = ctx.user_port;
             g_expect[t] = g_prot[t] && !skip;
             st[t] = (in_proto[t] == IPPROTO_TCP) ? 1 : 2;    /* only TCP reaches tcp_v4_connect */
+            if (st[t] == 2) fin_seq[t] = ++fin_counter;
         } else {
             /* ---------------- kprobe tcp_v4_connect ---------------- */
             int direct = (st[t] == 0);
+            for (int u = 0; u < NT; u++)
+                if (u != (int)t && st[u] == 1) ASSUME(in_sport[t] != in_sport[u]);   /* connects in progress together: distinct source ports */
             if (direct) {
                 for (int u = 0; u < NT; u++)
                     if (u != (int)t && st[u] == 1) ASSUME(!(in_tgid[u] == in_tgid[t] && in_tid[u] == in_tid[t]));
@@ -236,6 +240,7 @@ int main(void)
                 CHECK(same(&before), "C06.unprotected or agent connect produces no record");
             }
             st[t] = 2;
+            fin_seq[t] = ++fin_counter;
         }
 
         /* every TCP record in the audit map belongs to the finished attempt with that source port */
@@ -243,8 +248,8 @@ int main(void)
             if (!audit_used[i]) continue;
             if (audit_k[i].protocol != IPPROTO_TCP) continue;
             int owner = -1;
-            for (int u = 0; u < NT; u++)
-                if (st[u] == 2 && g_expect[u] && in_sport[u] == audit_k[i].source_port) owner = u;
+            for (int u = 0; u < NT; u++)      /* the LATEST finished protected attempt with that source port (a port may have been reused) */
+                if (st[u] == 2 && g_expect[u] && in_sport[u] == audit_k[i].source_port && (owner < 0 || fin_seq[u] > fin_seq[owner])) owner = u;
             CHECK(owner >= 0, "C06.every record belongs to a finished protected connect");
             if (owner >= 0)
                 CHECK(record_ok(&audit_v[i], owner), "C06.a record never carries another attempt's identity or destination");
